@@ -37,4 +37,9 @@ class NamespaceConfig(config.Config):
       values: Iterable[Any],
       metadata: config.BuildableTraverserMetadata,
   ):
-    return cls(**metadata.arguments(values))
+    rebuilt = cls(**metadata.arguments(values))
+    # Like `Buildable.__unflatten__`, carry the tags and the history over (they
+    # are part of the metadata; shallow copies and traversals rely on this).
+    object.__setattr__(rebuilt, '__argument_tags__', metadata.tags())
+    object.__setattr__(rebuilt, '__argument_history__', metadata.history())
+    return rebuilt
